@@ -29,7 +29,7 @@ PROPS = {
         "level_note": 'Exhaustive only for the stated token-string sub-space; everything else is sampled. Termination is judged by a CPU work bound, not proven.',
         "shards": 16,
         "rule": "cases: every string of <=4 (quick) / <=5 (thorough) lexemes over a 32-symbol alphabet (one or two lexemes per token kind plus error-prone fragments), joined by single spaces (every 10th also unseparated); every .j5s/.bcl file of the repository with token-level mutations and truncations; grammar-directed generated files with mutations and truncations; random Unicode incl. invalid UTF-8; hand-written edge cases. Each input is parsed in both modes. Every input counts as non-trivial; distinct by hash of the input text.",
-        "floors": ["c11:exhaustive", "c11:repo-file", "c11:generated", "c11:random", "c11:edge", "c11:accepted", "c11:rejected", "c11:multi-diagnostic"],
+        "floors": ["c11:exhaustive", "c11:repo-file", "c11:generated", "c11:random", "c11:edge", "c11:long-file", "c11:accepted", "c11:rejected", "c11:multi-diagnostic"],
         "assumptions": COMMON_ASSUMPTIONS + [
             "'inside the input' means: line index < number of '\\n'-separated lines and column <= number of characters of that line (the slot after the last character is where EOL/EOF diagnostics point)",
             "termination is judged by a CPU work bound of 2s + 50us per input byte per call; a wall-clock watchdog only yields 'inconclusive'",
@@ -47,11 +47,11 @@ PROPS = {
         ],
     },
     "C19": {
-        "level_text": "Same input space as C09; for every input the formatter accepts FmtDiffs must return, edits must be ascending, non-overlapping, within 0 <= from <= to <= #lines, and the harness's own LSP-style applier must reproduce Fmt(x) up to trailing blank lines.",
+        "level_text": "Same input space as C09; for every input the formatter accepts FmtDiffs must return, edits must be ascending, non-overlapping, within 0 <= from <= to <= #lines, and the harness's own line-edit applier must reproduce Fmt(x) up to trailing blank lines. The same document is then sent through the language server's formatter (genlsp, via an export shim) and its LSP text edits are applied with protocol semantics (a position past the last line is the end of the document); the result must again equal Fmt(x). A quarter of the multi-line inputs is run a second time with CRLF line ends.",
         "level_note": 'The edit applier is harness code modelled on internal/bcl/genlsp/format.go; inputs are generated, not all texts.',
         "shards": 16,
         "rule": "same input space as C09; only inputs the formatter accepts are evaluated. Non-trivial = input is not blank; distinct by hash of the input text.",
-        "floors": ["fmt:systematic", "fmt:repo-file", "fmt:generated", "c19:accepted", "c19:has-edits", "c19:multi-edit", "c19:escaped-newline", "c19:block-comment", "c19:description", "c19:blank-lines"],
+        "floors": ["fmt:systematic", "fmt:repo-file", "fmt:generated", "c19:accepted", "c19:class:crlf", "c19:has-edits", "c19:multi-edit", "c19:escaped-newline", "c19:block-comment", "c19:description", "c19:blank-lines"],
         "assumptions": COMMON_ASSUMPTIONS + [
             "edits are applied the way the LSP server hands them to editors (internal/bcl/genlsp/format.go): an edit replaces the text from the start of line From to the start of line To, positions past the last line clamp to the end of the document, all edits refer to the original document; number of lines = number of '\\n' + 1",
         ],
